@@ -58,9 +58,10 @@ Print Assumptions C19_sparse_simplices_wellformed.
 
 (* 2c / 3c. the same two clauses for the model that FOLLOWS THE TRAVERSAL of the simplex tree ([sparse_complex_trie]:
    siblings_expansion_with_blockers with its reverse loops and its look-ups of the borders in the tree built so far when
-   epsilon < 1; siblings_expansion / create_expansion / intersection when epsilon >= 1).  For epsilon >= 1 the closure under
-   faces of the traversal model is the completeness of the plain flag expansion (property C04) and is not re-proved here: it is
-   proved for the level-wise model (theorem 3) and the two models are compared on every generated input. *)
+   epsilon < 1; siblings_expansion / create_expansion / intersection when epsilon >= 1).  With blockers the facets are looked up
+   by the code itself; for epsilon >= 1 the code never looks at the other facets, and closure under faces is the completeness of
+   the plain flag expansion: every increasing clique is produced (sib_plain_complete), with a value attained by one of its edges
+   and bounding all of them (sib_plain_sound). *)
 Theorem C19_trie_subcomplex_never_earlier :
   forall (d : nat -> nat -> Q), (forall u v, d u v == d v u) ->
   forall (eps : Q), 0 < eps ->
@@ -76,6 +77,14 @@ Theorem C19_trie_valid_filtration_with_blockers :
   eps < 1 -> valid (sparse_complex_trie d eps N pi mini maxi dim_max).
 Proof. intros d Hs Hn eps He. exact (sparse_trie_valid_blk d Hs Hn eps He). Qed.
 Print Assumptions C19_trie_valid_filtration_with_blockers.
+
+Theorem C19_trie_valid_filtration_plain :
+  forall (d : nat -> nat -> Q), (forall u v, 0 <= d u v) ->
+  forall (eps : Q), 0 < eps ->
+  forall (N : nat) (pi : list nat) (mini maxi : option Q) (dim_max : Z),
+  NoDup pi -> 1 <= eps -> valid (sparse_complex_trie d eps N pi mini maxi dim_max).
+Proof. intros d Hn eps He. exact (sparse_trie_valid_plain d Hn eps He). Qed.
+Print Assumptions C19_trie_valid_filtration_plain.
 
 (* 4. the insertion radii of ANY farthest-point order (any start, any tie-breaking; also a prefix of one) never increase *)
 Theorem C19_radii_nonincreasing : forall (d : nat -> nat -> Q) (N : nat) (pi : list nat),
